@@ -184,19 +184,23 @@ def check(rep, an, tier):
         R.rule_type_errors(rep, res, "SHAPE", "R-SHAPE", entry)
     # ---- adaptation
     for meth in ("register_background_adaptation", "register_system_adaptation"):
-        for add_b in (True, False):
-            for add in (False, True):
+        for add_b, add, kprev in ((True, False, "vec"), (True, True, "vec"), (False, False, "vec"), (False, True, "vec"),
+                                  (True, False, "mat"), (False, False, "mat")):
+            if True:
                 fields = est_fields("array", None) if meth == "register_background_adaptation" else estimator_fields(K="vec", baseline="vec")
                 UC = {"phi": 1, "iota": 1, "lam": 1} if meth == "register_background_adaptation" else U_CAPTURE
-                fields["K"] = arr("self.K", S("F"), {k: -v for k, v in UC.items()})
+                # the adaptation registered BEFORE: per receptor, or a (cross-adaptation) matrix
+                fields["K"] = arr("self.K", S("F") if kprev == "vec" else S("Fr", "F"), {k: -v for k, v in UC.items()})
                 fields["baseline"] = arr("self.baseline", S("F"), UC, "BASE", sign="NONNEG")
                 if meth == "register_background_adaptation":
                     kw = dict(background=D.on(arr("background", S("D@self.domain"), U_SIGNAL), "self.domain"), domain=none())
                 else:
                     kw = dict(x=arr("x", S("SRC"), U_INT))
                 kw.update(add_baseline=flag("add_baseline", add_b), add=flag("add", add))
-                res = an.run(f"{EST}.{meth}", kws=kw, self_fields=fields, spec=spec, config=cfgname(dict(add_baseline=add_b, add=add)))
+                res = an.run(f"{EST}.{meth}", kws=kw, self_fields=fields, spec=spec,
+                             config=cfgname(dict(add_baseline=add_b, add=add, **({"Kbefore": "matrix"} if kprev == "mat" else {}))))
                 entry = f"ReceptorEstimator.{meth}"
+                R.rule_type_errors(rep, res, "SHAPE", "R-SHAPE", entry)
                 st = [e for e in res.events("self_store") if e.d["attr"] == "K"]
                 if not st:
                     rep.violated("R-EFFECT", "adaptation stores K", where=res.fn.loc(), construct="self.K = …", entry=entry, config=res.config,
